@@ -16,6 +16,7 @@ import (
 	_ "verifsim/props/c02"
 	_ "verifsim/props/c12"
 	_ "verifsim/props/c13"
+	_ "verifsim/props/c16"
 )
 
 type line struct {
